@@ -365,6 +365,22 @@ def grading_level(ctx: Ctx, insts: List[dict], rng: random.Random) -> None:
                  and abs(inv[1][2] * spec[0][2] - 1) < 1e-9 and abs(inv[0][0] - spec[1][0]) < 1e-12)
         if not okinv:
             ctx.violation("grading:inverted", f"inverted {inv} is not the reversed, reciprocal {spec}", {"instance": inst, "spec": spec, "inv": inv})
+        # Chop.tla ReverseLaw: Rev(Rev(i)) = i, and reading a grading backwards does not change it - the original keeps its
+        # sections, a second reading gives the same answer, the reversed reversed is the original
+        try:
+            after = [list(s) for s in g.specification]
+            inv2 = [list(s) for s in g.inverted.specification]
+            back = [list(s) for s in g.inverted.inverted.specification]
+        except Exception as err:  # pylint: disable=broad-except
+            ctx.violation("grading:inverted-raises", f"reading a grading backwards twice raised {type(err).__name__}", {"instance": inst})
+            continue
+        close = lambda a, b: len(a) == len(b) and all(abs(x - y) <= 1e-9 * max(1.0, abs(y)) for r1, r2 in zip(a, b) for x, y in zip(r1, r2))  # noqa: E731
+        if not close(after, spec):
+            ctx.violation("grading:inverted-modifies-original", f"taking .inverted changed the grading from {spec} to {after}", {"instance": inst})
+        elif not close(inv2, inv):
+            ctx.violation("grading:inverted-not-repeatable", f"a second .inverted gives {inv2}, the first gave {inv}", {"instance": inst})
+        elif not close(back, spec):
+            ctx.violation("grading:inverted-twice", f"inverted.inverted {back} is not the original {spec}", {"instance": inst})
 
 
 def run(ctx: Ctx) -> None:
